@@ -40,6 +40,49 @@ def run(prog, chk):
     strops.check_for(prog, chk, "C20")  # A14.str-ops: how this property's strings are cut up is a reviewed, frozen inventory
 
 
+def _true_only_after(body, place, after_blocks, depth=5):
+    """`place` is a bool flag (a local, or a component of a tuple of flags) every definition of which is a constant,
+    and it is set to true only in blocks dominated by one of `after_blocks` (true => that call has happened)"""
+    if depth == 0:
+        return False
+    l, proj = place[0], [p for p in place[1] if p != "*"]
+    if len(proj) > 1 or (proj and not re.fullmatch(r"\.\d+", str(proj[0]))):
+        return False
+    defs = body.defs_of(l)
+    if not defs:
+        return False
+    can_be_true = False
+    for d in defs:
+        if d[1] == R.TERM:
+            return False
+        rv = d[2]
+        if proj:
+            n = int(str(proj[0])[1:])
+            if rv["k"] != "aggr" or rv.get("ak") != "tuple" or n >= len(rv["ops"]):
+                return False
+            o = rv["ops"][n]
+        elif rv["k"] == "use":
+            o = rv["op"]
+        else:
+            return False
+        k = op_const(o)
+        if k is not None:
+            if "bool" not in k:
+                return False
+            if k["bool"]:
+                if not any(body.dominates(rb, d[0]) for rb in after_blocks):
+                    return False
+                can_be_true = True
+            continue
+        pl = op_place(o)
+        if pl is None:
+            return False
+        if not _true_only_after(body, pl, after_blocks, depth - 1):
+            return False
+        can_be_true = True
+    return can_be_true
+
+
 def gating(prog, chk):
     pp = prog.body("svgdx::transform::Transformer::postprocess")
     chk.touch(pp)
@@ -61,14 +104,10 @@ def gating(prog, chk):
             conds.append((name, x == tt))
             # the `root <svg> was found` flag, recognised by dataflow rather than by name: a bool local all of whose
             # definitions are constants, set to true after write_root_svg() was called
-            if o[0] == "place" and not o[1][1] and x == tt:
-                from props.C02 import _flag_like
-                l = o[1][0]
-                if _flag_like(pp, l):
-                    roots = [rb for (rb, rt, rc) in pp.call_sites(R.path_endswith("Transformer::write_root_svg"))]
-                    for d in pp.defs_of(l):
-                        if d[1] != R.TERM and d[2]["k"] == "use" and (op_const(d[2]["op"]) or {}).get("bool") is True and any(pp.dominates(rb, d[0]) for rb in roots):
-                            conds.append(("<root-found flag>", True))
+            if o[0] == "place" and x == tt:
+                roots = [rb for (rb, rt, rc) in pp.call_sites(R.path_endswith("Transformer::write_root_svg"))]
+                if _true_only_after(pp, o[1], roots):
+                    conds.append(("<root-found flag>", True))
         has_root = ("<root-found flag>", True) in conds
         on = (".add_auto_styles", True) in conds
         not_real = (".real_svg", False) in conds or any(n == ".real_svg" and not v for n, v in conds)
